@@ -61,10 +61,12 @@ int asn1c_compiled_output(arg_t *arg, const char *file, int lineno,
 
 #define EMBED(ev)                                        \
     do {                                                 \
+        int _embed_ret;                                  \
         arg->embed++;                                    \
         INDENTED(arg_t _tmp = *arg; _tmp.expr = ev;      \
-                 _tmp.default_cb(&_tmp, NULL););         \
+                 _embed_ret = _tmp.default_cb(&_tmp, NULL);); \
         arg->embed--;                                    \
+        if(_embed_ret) return -1; /* Member failed */    \
         if(ev->expr_type != A1TC_EXTENSIBLE) OUT(";\n"); \
         assert(arg->target->target == OT_TYPE_DECLS      \
                || arg->target->target == OT_FWD_DEFS);   \
@@ -72,10 +74,13 @@ int asn1c_compiled_output(arg_t *arg, const char *file, int lineno,
 
 #define EMBED_WITH_IOCT(ev, ioc)                                   \
     do {                                                           \
+        int _embed_ret;                                            \
         arg->embed++;                                              \
         INDENTED(arg_t _tmp = *arg; _tmp.expr = ev;                \
-                 _tmp.default_cb(&_tmp, ((ioc).ioct ? &ioc : 0));); \
+                 _embed_ret =                                      \
+                     _tmp.default_cb(&_tmp, ((ioc).ioct ? &ioc : 0));); \
         arg->embed--;                                              \
+        if(_embed_ret) return -1; /* Member failed */              \
         if(ev->expr_type != A1TC_EXTENSIBLE) OUT(";\n");           \
         assert(arg->target->target == OT_TYPE_DECLS                \
                || arg->target->target == OT_FWD_DEFS);             \
